@@ -276,9 +276,9 @@ func ruleDeletePrune(c *Ctx, r *Report) {
 }
 
 // ruleReflectString: R-REFLECT-STRING — reflect.Value.String() on a non-string yields "<T Value>".
-func ruleReflectString(c *Ctx, r *Report, scope func(string) bool) {
+func ruleReflectString(c *Ctx, r *Report, fs []*FuncInfo) {
 	r.Rule("R-REFLECT-STRING", "reflect.Value.String() is only used on values proved to be of string kind (otherwise it yields \"<T Value>\", not the value)", 0)
-	for _, f := range c.funcsInScope(scope, libPkgs) {
+	for _, f := range fs {
 		info := f.Info()
 		n := 0
 		ast.Inspect(f.Decl.Body, func(x ast.Node) bool {
